@@ -195,10 +195,35 @@ func c06Body(t *rapid.T) {
 		}
 	case "ddl_rejected":
 		// a collection selected by A is created upstream while A runs; the downstream rejects its CreateCollection
+		// the order of the two consequences is drawn: either the reader gives up looking for the new collection first, or (the
+		// lookup of the new collection is held) the rejected DDL pauses the task first and the start of the collection fails
+		// afterwards, on a task that has already been stopped
+		holdLookup := persistent && rapid.Bool().Draw(t, "startFailsAfterThePause")
+		var aPaused atomic.Bool
+		var writerPeer atomic.Value
+		writerPeer.Store("")
+		if holdLookup {
+			go func() {
+				for i := 0; i < 400 && !aPaused.Load(); i++ {
+					if s, _ := taskView(w, t, idA); s == "Paused" {
+						aPaused.Store(true)
+					}
+					time.Sleep(25 * time.Millisecond)
+				}
+				aPaused.Store(true)
+			}()
+		}
 		w.targets[ta].Before = func(cc *milvus.CallCtx) error {
 			if r, ok := cc.Req.(*milvuspb.CreateCollectionRequest); ok && cc.Method == "CreateCollection" && r.GetCollectionName() == "cnew" && (persistent || fired.Load() == 0) {
+				writerPeer.Store(cc.Peer)
 				fired.Add(1)
 				return fmt.Errorf("injected: downstream rejects the DDL")
+			}
+			// only the reader's lookups are held: the writer probes the collection before every attempt on its own connection
+			if r, ok := cc.Req.(*milvuspb.DescribeCollectionRequest); ok && holdLookup && r.GetCollectionName() == "cnew" && fired.Load() > 0 && cc.Peer != writerPeer.Load() {
+				for i := 0; i < 400 && !aPaused.Load(); i++ {
+					time.Sleep(25 * time.Millisecond)
+				}
 			}
 			return nil
 		}
